@@ -365,6 +365,9 @@ func (fx *loopFx) effects(blocks []*ssa.BasicBlock, subst map[ssa.Value]ssa.Valu
 				fx.storeTarget(x.Addr, subst)
 			case *ssa.MapUpdate:
 				fx.mapTarget(x.Map, subst)
+			case *ssa.Send:
+				nv := fx.c.heapHavoc(fx.st, arrName("S", "sent", "", "Int"))
+				fx.st.assume("(forall ((r Int)) (>= (select " + nv + " r) 0))")
 			case *ssa.Call:
 				fx.callEffects(&x.Call, subst, depth)
 			case *ssa.Defer:
